@@ -183,6 +183,8 @@ def build(sd, **extra):
         kw['find_span_func'] = helpers.find_span_binsearch
     elif sd.get('span') == 'linear':
         kw['find_span_func'] = helpers.find_span_linear
+    if sd.get('precision') is not None:
+        kw['precision'] = sd['precision']
     kw.update(extra)
     cp = ctrlptsw_of(sd)
     pdim = sd['pdim']
